@@ -58,7 +58,15 @@ func Membership() {
 	mr := protocol.ToMembershipResult(nil, mp)
 	d := l.Digests[e]
 
-	switch rt.Choose("mutation", 9) {
+	switch rt.Choose("mutation", 10) {
+	case 9: // far more entries than the tree has levels (the path size drives the verifier's descent)
+		extra := []int{233, 257, 300}[rt.Choose("extra", 3)]
+		for i := 0; i < extra; i++ {
+			mr.Hyper[fmt.Sprintf("0x%04x|%d", i, 300+i)] = make([]byte, 32)
+		}
+		for i := 0; i < 70; i++ {
+			mr.History[fmt.Sprintf("%d|%d", 1000+i, 70+i)] = make([]byte, 32)
+		}
 	case 0: // drop one hyper entry
 		t, i := rt.Choose("drop", len(mr.Hyper)), 0
 		for k := range mr.Hyper {
@@ -107,7 +115,9 @@ func Membership() {
 	if !rt.NoPanic(func() { p = protocol.ToBalloonProof(mr, rt.HasherF(bits)) }, "to-balloon-proof") {
 		return
 	}
-	rt.NoPanic(func() { p.DigestVerify(d, snap) }, "digest-verify")
+	rt.Terminates(func() {
+		rt.NoPanic(func() { p.DigestVerify(d, snap) }, "digest-verify")
+	}, "digest-verify")
 }
 
 // Incremental: structured mutations of a genuine incremental answer.
@@ -149,7 +159,9 @@ func Incremental() {
 	if !rt.NoPanic(func() { p = protocol.ToIncrementalProof(ir, rt.HasherF(bits)) }, "to-incremental-proof") {
 		return
 	}
-	rt.NoPanic(func() { p.Verify(l.Snaps[i], l.Snaps[j]) }, "incremental-verify")
+	rt.Terminates(func() {
+		rt.NoPanic(func() { p.Verify(l.Snaps[i], l.Snaps[j]) }, "incremental-verify")
+	}, "incremental-verify")
 }
 
 // NilParts: absent parts of a proof object.
